@@ -56,11 +56,16 @@ def write_input(d, case, name='in.bam'):
         os.remove(path + '.bai')
     elif st and st[0] == 'no-unplaced-count':
         # a .bai written without the optional trailing count of reads without coordinates (other indexers omit it): htslib accepts it,
-        # fetch('*') still delivers those reads, idxstats reports 0 of them
-        with open(path + '.bai', 'r+b') as f:
-            f.truncate(os.path.getsize(path + '.bai') - 8)
-        t = os.path.getmtime(path)
-        os.utime(path + '.bai', (t + 1, t + 1))
+        # fetch('*') still delivers those reads, idxstats reports 0 of them.  Only for files that hold at least one PLACED read: htslib finds
+        # the start of the unplaced reads from the last placed one, and without any it relies on that very count (then no reader at all
+        # can fetch them - nothing the tagger could be held to)
+        import pysam
+        placed = sum(int(l.split('\t')[2]) + int(l.split('\t')[3]) for l in pysam.idxstats(path).splitlines() if l and not l.startswith('*'))
+        if placed > 0:
+            with open(path + '.bai', 'r+b') as f:
+                f.truncate(os.path.getsize(path + '.bai') - 8)
+            t = os.path.getmtime(path)
+            os.utime(path + '.bai', (t + 1, t + 1))
     return path
 
 
